@@ -389,6 +389,11 @@ func runSchemaCase(c *SCase) SObs {
 		allSchema.WriteString(k)
 		allSchema.WriteString("\x00")
 	}
+	// the library words some reasons with the JSON text of schema members (the list of an enum): a leaf that
+	// occurs in that text - an enum member "a" next to the value "\"a\"" - is the schema's, not the value's
+	if sj, err := json.Marshal(c.Schema); err == nil {
+		allSchema.Write(sj)
+	}
 	leaks := map[string]bool{}
 	walkJSON(val, func(x any) {
 		str, ok := x.(string)
